@@ -4,8 +4,10 @@ import OFProps.JoinDefs
 -/
 namespace OF.Recv
 
-/-- a synchronised all-topics (non-`*`) subscription -/
-def PlainSrc (s : Src) : Prop := s.eph = 0 ∧ s.subAll = true ∧ s.star = false ∧ s.subs = []
+/-- a synchronised (non-`*`) subscription to the one topic `t` of its publisher: all topics (`addr`), or explicit, possibly
+remapped (`addr;t`, `addr;t>d`) -/
+def PlainSrc (t : Topic) (s : Src) : Prop :=
+  s.eph = 0 ∧ s.star = false ∧ ((s.subAll = true ∧ s.subs = []) ∨ (∃ d, s.subAll = false ∧ s.subs = [(t, d)]))
 
 /-- a visible, non-empty topic name -/
 def GoodTopic (t : Topic) : Prop := t ≠ "" ∧ t.startsWith "_" = false
@@ -31,15 +33,21 @@ theorem initRecvd_single_hb (s : Src) (m : Msg) (t : Topic) (hs : s.star = false
 /-- what is stored for the topic message of id `k` -/
 def frameOf (i : Nat) (w : Wire) (t : Topic) : Msg := { mid := w.mid, topic := t, body := w.body, src := i }
 
-/-- an idle plain source takes a message older than expected: it is dropped -/
+theorem effTopic_explicit (t d : Topic) : effTopic false [(t, d)] t = t := by
+  unfold effTopic; simp
+
+theorem recvdNew_explicit (s : Src) (t d : Topic) (h1 : s.subAll = false) (h2 : s.subs = [(t, d)]) :
+    recvdNew s = some [(t, none)] := by
+  unfold recvdNew; simp [h1, h2]
+
+/-- a synchronised source takes a message older than expected: it is dropped -/
 theorem onTake_older (st : St) (i : Nat) (s0 : Src) (w : Wire) (q : List Wire)
-    (hs : st.srcs[i]? = some s0) (hq : s0.queue = w :: q) (hp : PlainSrc s0) (hid : 0 ≤ w.mid) (hold : w.mid < st.minRecvId)
+    (hs : st.srcs[i]? = some s0) (hq : s0.queue = w :: q) (heph : s0.eph = 0) (hid : 0 ≤ w.mid) (hold : w.mid < st.minRecvId)
     (hb : w.bal = 0) :
     (onTake st i).1 = { st with srcs := st.srcs.set i { s0 with queue := q, conn := true } } := by
   rcases s0 with ⟨eph, subAll, star, subs, recvd, minId, conn, reg, queue⟩
-  rcases hp with ⟨h1, h2, h3, h4⟩
-  simp only at h1 h2 h3 h4 hq
-  subst h1 h2 h3 h4 hq
+  simp only at heph hq
+  subst heph hq
   unfold onTake
   rw [hs]
   have hsp : ¬ w.mid ≤ OF.Facts.MSG_ID_SPECIAL := by unfold OF.Facts.MSG_ID_SPECIAL; omega
@@ -50,7 +58,7 @@ theorem onTake_older (st : St) (i : Nat) (s0 : Src) (w : Wire) (q : List Wire)
 /-- an idle (empty) plain source takes the topic message of an id that is not older: it becomes complete, leaves the poller,
 the id is adopted and, if it was newer, every other synchronised source is reset -/
 theorem onTake_topic (st : St) (i : Nat) (s0 : Src) (w : Wire) (q : List Wire) (t : Topic)
-    (hs : st.srcs[i]? = some s0) (hq : s0.queue = w :: q) (hp : PlainSrc s0) (hr : s0.recvd = none)
+    (hs : st.srcs[i]? = some s0) (hq : s0.queue = w :: q) (hp : PlainSrc t s0) (hr : s0.recvd = recvdNew s0)
     (ht : GoodTopic t) (hw : IsT t w.mid w) (hid : 0 ≤ w.mid) (hnew : st.minRecvId ≤ w.mid) (hb : w.bal = 0)
     (hbal : st.balance = false) :
     (onTake st i).1 =
@@ -60,22 +68,43 @@ theorem onTake_topic (st : St) (i : Nat) (s0 : Src) (w : Wire) (q : List Wire) (
           else st.srcs.set i { s0 with queue := q, conn := true, recvd := some [(t, some (frameOf i w t))], reg := false },
         minRecvId := w.mid } := by
   rcases s0 with ⟨eph, subAll, star, subs, recvd, minId, conn, reg, queue⟩
-  rcases hp with ⟨h1, h2, h3, h4⟩
-  simp only at h1 h2 h3 h4 hq hr
-  subst h1 h2 h3 h4 hq hr
-  unfold onTake
-  rw [hs]
+  rcases hp with ⟨h1, h3, hsub⟩
+  simp only at h1 h3 hq hr hsub
+  subst h1 h3 hq
   have hsp : ¬ w.mid ≤ OF.Facts.MSG_ID_SPECIAL := by unfold OF.Facts.MSG_ID_SPECIAL; omega
-  simp only [↓reduceIte, hb, ne_eq, not_true_eq_false, hsp, effTopic_subAll, hw.2.1]
-  unfold takeSync processMsg
   have hno : ¬ w.mid < st.minRecvId := by omega
-  simp only [hno, ↓reduceIte, hw.2.2.1]
-  rw [initRecvd_single _ _ t rfl ht rfl]
-  unfold syncApply storeRecvd prune gotAll frameOf
-  by_cases hgt : st.minRecvId < w.mid
-  · have hgt' : w.mid > st.minRecvId := hgt
-    simp [hgt, hgt', hbal]
-  · have hgt' : ¬ w.mid > st.minRecvId := hgt
-    simp [hgt, hgt', hbal]
+  rcases hsub with ⟨h2, h4⟩ | ⟨d, h2, h4⟩
+  · -- all topics
+    subst h2 h4
+    have hr' : recvd = none := by rw [hr]; unfold recvdNew; simp
+    subst hr'
+    unfold onTake
+    rw [hs]
+    simp only [↓reduceIte, hb, ne_eq, not_true_eq_false, hsp, effTopic_subAll, hw.2.1]
+    unfold takeSync processMsg
+    simp only [hno, ↓reduceIte, hw.2.2.1]
+    rw [initRecvd_single _ _ t rfl ht rfl]
+    unfold syncApply storeRecvd prune gotAll frameOf
+    by_cases hgt : st.minRecvId < w.mid
+    · have hgt' : w.mid > st.minRecvId := hgt
+      simp [hgt, hgt', hbal]
+    · have hgt' : ¬ w.mid > st.minRecvId := hgt
+      simp [hgt, hgt', hbal]
+  · -- explicit (possibly remapped) subscription to t
+    subst h2 h4
+    have hr' : recvd = some [(t, none)] := by rw [hr]; unfold recvdNew; simp
+    subst hr'
+    unfold onTake
+    rw [hs]
+    simp only [↓reduceIte, hb, ne_eq, not_true_eq_false, hsp, effTopic_explicit, hw.2.1]
+    unfold takeSync processMsg
+    simp only [hno, ↓reduceIte, hw.2.2.1]
+    unfold syncApply storeRecvd prune gotAll frameOf newRecvWith recvdNew dset
+    by_cases hgt : st.minRecvId < w.mid
+    · have hgt' : w.mid > st.minRecvId := hgt
+      have hne : w.mid ≠ st.minRecvId := by omega
+      simp [hgt, hne, hbal, ht.1]
+    · have heq : w.mid = st.minRecvId := by omega
+      simp [hgt, heq, hbal, ht.1]
 
 end OF.Recv
